@@ -357,6 +357,22 @@ def main_c13(tier, seed):
         if not msg and calls and calls[-1][0] != k:
             msg = "the final arcs were created with k=%d but best_k=%d" % (calls[-1][0], k)
         if not msg and which == "unsup":
+            # label propagation on the fitted object (after the whole k search): every sample gets the TRUE label of its root
+            try:
+                opf.propagate_labels()
+                for q_ in range(nt):
+                    r_ = q_
+                    for _ in range(nt + 1):
+                        if st["pred"][r_] == -1:
+                            break
+                        r_ = st["pred"][r_]
+                    got_ = int(sg.nodes[q_].predicted_label)
+                    if got_ != labels_t[r_]:
+                        msg = "propagate_labels after fit (k searched over %d..%d) gives sample %d the label %d, its root %d has true label %d" % (
+                            1, int(opf.max_k), q_, got_, r_, labels_t[r_]); break
+            except Exception as ex:   # noqa
+                msg = "propagate_labels raised %r" % (ex,)
+        if not msg and which == "unsup":
             # the graph the forest lives on: every sample's k arcs (behind its plateau insertions) go to its k nearest samples
             # by the distance FROM that sample (directed dissimilarities included)
             for p_ in range(nt):
